@@ -2,7 +2,7 @@
 property statement on the real result (spec level, `RECTCLIPCHECK`). -/
 import ClipperVerif.Driver.Proto
 import ClipperVerif.Driver.C09
-import ClipperVerif.Model.RectClip
+import ClipperVerif.Model.RectClipAuto
 namespace Clipper.Driver.C08
 open Clipper Clipper.Proto Clipper.Model.RC Clipper.Driver.C09
 
@@ -101,7 +101,50 @@ def probesUsed (r : Rect) (p : Path) (probes : List Pt) : Nat :=
     (decide (2 * r.left + 2 < q.x ∧ q.x < 2 * r.right - 2 ∧ 2 * r.top + 2 < q.y ∧ q.y < 2 * r.bottom - 2) ||
      decide (q.x < 2 * r.left - 2 ∨ q.x > 2 * r.right + 2 ∨ q.y < 2 * r.top - 2 ∨ q.y > 2 * r.bottom + 2)))).length
 
+def showFault : Fault → String
+  | .path => "FAULT path" | .corner => "FAULT corner" | .pip => "FAULT pip" | .fuel => "FAULT fuel"
+
+def showLocs (l : List Location) : String :=
+  l.foldl (fun s a => s ++ " " ++ toString a.toNat) (toString l.length)
+
+/-- the raw ring read from `results_[0]` following `next`, then `start_locs_` -/
+def showAuto : Except Fault AResult → String
+  | .ok res => showPath (ringFromHead res.es) ++ " " ++ showLocs res.startLocs
+  | .error f => showFault f
+
+/-- the hypotheses of the automaton theorems of Props/C08.lean that concern `double` arithmetic, evaluated on this
+input with the bit-exact `Float` instance:
+(a) the sign of `CrossProduct(v, e1, e2)` is exact for every path vertex `v` and rectangle edge `e1 e2` (`CrossZeroExact`);
+(b) `RunFine` (decided by `runFineB`: no missed crossing, progress at least every second iteration);
+(c) no `thru1 false` point (`NoLostCrossingA`);
+(d) every point passed to `Add` lies in the rectangle widened by 1 (`IsectIn`);
+(e) every such point that is not tagged as a path vertex is within 1 unit of the boundary (`EdgeSat`). -/
+def autoHyp (r : Rect) (p : Path) : String :=
+  let edges := [(r.c0, r.c3), (r.c0, r.c1), (r.c1, r.c2), (r.c2, r.c3)]
+  if p.any (fun v => edges.any (fun e => floatArith.cross v e.1 e.2 != Int.sign (crossZ v e.1 e.2))) then
+    "FAIL inexact sign of an axis-parallel cross product"
+  else if !runFineB floatArith r p then "FAIL RunFine: a crossing was missed or an iteration made no progress"
+  else match executeInternalF r p with
+  | .error f => showFault f
+  | .ok res =>
+    if res.es.any (fun e => e.kind == .thru1 false) then "FAIL lost first crossing of a through segment"
+    else
+      let R : Rect := ⟨r.left - 1, r.top - 1, r.right + 1, r.bottom + 1⟩
+      match res.es.find? (fun e => !inRect R e.pt) with
+      | some e => s!"FAIL point {e.pt} passed to Add outside the widened rectangle"
+      | none =>
+        match res.es.find? (fun e => e.kind != .vertex && !nearBoundary1 r e.pt) with
+        | some e => s!"FAIL new point {e.pt} not within 1 unit of the boundary"
+        | none => "ok"
+
 def handle : String → Option (P String)
+  | "RCAUTOHYP" => some do
+      let r ← rect; let p ← path; done
+      pure (autoHyp r p)
+  -- RCAUTO rect path → raw ring of RectClip64::ExecuteInternal (before CheckEdges/TidyEdges) and start_locs_
+  | "RCAUTO" => some do
+      let r ← rect; let p ← path; done
+      pure (showAuto (executeInternalF r p))
   -- RECTCLIPCHECK rect path result k probes(doubled coordinates)
   | "RECTCLIPCHECK" => some do
       let r ← rect; let p ← path; let res ← paths; let k ← nat; let probes ← rep k pt; done
